@@ -39,6 +39,12 @@ var unlistedErr = stderrors.New("unlisted failure")
 
 type panicStruct struct{ A int }
 
+// causerErr implements the causer interface pkg/errors documents for errors.Cause, and nothing else.
+type causerErr struct{ cause error }
+
+func (c causerErr) Error() string { return "application error caused by: " + c.cause.Error() }
+func (c causerErr) Cause() error  { return c.cause }
+
 type replCtxKey struct{}
 
 type callSpec struct {
@@ -115,6 +121,10 @@ func (s *script) handler(msg *message.Message) ([]*message.Message, error) {
 		o.err = errors.WithMessage(unlistedErr, "with message")
 	case 7:
 		o.err = errors.WithStack(unlistedErr)
+	case 8: // an error type of the application's own that names its cause the pkg/errors way (Cause() only): the cause is listed
+		o.err = causerErr{listedErr}
+	case 9:
+		o.err = causerErr{unlistedErr}
 	}
 	return o.outs, o.err
 }
@@ -251,6 +261,7 @@ type caseT struct {
 	CorrID      string
 	HasDeadline bool
 	DelayMeta   string // pre-existing delayed_for metadata ("" = none)
+	CtxEnded    bool   // the message arrives with a context that has ended already (its subscription was cancelled meanwhile)
 }
 
 func genElem(t *rapid.T, allowRetry bool) elem {
@@ -299,7 +310,7 @@ func genCase(t *rapid.T) caseT {
 		switch rapid.IntRange(0, 5).Draw(t, "outcome") {
 		case 0, 1:
 		case 2, 3:
-			sp.Err = rapid.SampledFrom([]int{1, 2, 3, 5, 6, 7}).Draw(t, "errKind")
+			sp.Err = rapid.SampledFrom([]int{1, 2, 3, 5, 6, 7, 8, 8, 9}).Draw(t, "errKind")
 		case 4:
 			sp.Panic = rapid.IntRange(1, 4).Draw(t, "panicKind")
 		case 5:
@@ -310,6 +321,7 @@ func genCase(t *rapid.T) caseT {
 	c.CorrID = rapid.SampledFrom([]string{"", "corr-1", "é"}).Draw(t, "correlationID")
 	c.HasDeadline = rapid.IntRange(0, 2).Draw(t, "existingDeadline") == 0
 	c.DelayMeta = rapid.SampledFrom([]string{"", "", "1s", "1.5s", "garbage", "250ms"}).Draw(t, "existingDelayMeta")
+	c.CtxEnded = rapid.IntRange(0, 5).Draw(t, "messageContextAlreadyEnded") == 0
 	return c
 }
 
@@ -318,7 +330,7 @@ func (c caseT) canon() string {
 	for _, e := range c.Chain {
 		b.WriteString(e.String() + ">")
 	}
-	fmt.Fprintf(&b, "|%v|%q|%v|%q", c.Specs, c.CorrID, c.HasDeadline, c.DelayMeta)
+	fmt.Fprintf(&b, "|%v|%q|%v|%q|%v", c.Specs, c.CorrID, c.HasDeadline, c.DelayMeta, c.CtxEnded)
 	return b.String()
 }
 
@@ -403,6 +415,11 @@ func runChain(c caseT, build func(elem) message.HandlerMiddleware) runResult {
 		ctx, cancel = context.WithDeadline(ctx, res.existing)
 		defer cancel()
 	}
+	if c.CtxEnded {
+		var cancelNow context.CancelFunc
+		ctx, cancelNow = context.WithCancel(ctx)
+		cancelNow()
+	}
 	msg.SetContext(ctx)
 	res.start = time.Now()
 	var outs []*message.Message
@@ -469,7 +486,7 @@ func TestChainAgainstReference(t *testing.T) {
 		got := runChain(c, real)
 		want := runChain(c, ref)
 		g, w := got.sum, want.sum
-		desc := fmt.Sprintf("chain (outermost first) %v, script %+v, corr=%q existingDeadline=%v delayMeta=%q", c.Chain, c.Specs, c.CorrID, c.HasDeadline, c.DelayMeta)
+		desc := fmt.Sprintf("chain (outermost first) %v, script %+v, corr=%q existingDeadline=%v delayMeta=%q messageContextAlreadyEnded=%v", c.Chain, c.Specs, c.CorrID, c.HasDeadline, c.DelayMeta, c.CtxEnded)
 		if g.Calls != w.Calls {
 			t.Fatalf("violation: handler called %d times, reference chain calls it %d times\n%s", g.Calls, w.Calls, desc)
 		}
